@@ -2,10 +2,19 @@
 import gc
 import hashlib
 import random
+import re
 import traceback
 from collections import Counter
 
 from .tape import Tape, mix
+
+
+_ADDR = re.compile(r" at 0x[0-9a-fA-F]+")
+
+
+def scrub(text):
+    """Memory addresses in reprs (e.g. '<object object at 0x7f..>') are not part of a run's identity."""
+    return _ADDR.sub(" at 0x?", text)
 
 
 class HarnessError(Exception):
@@ -42,7 +51,7 @@ class Ctx:
         self.probes[name] += n
 
     def violate(self, key, detail=""):
-        d = detail if isinstance(detail, str) else repr(detail)
+        d = scrub(detail if isinstance(detail, str) else repr(detail))
         if len(d) > 1500:
             d = d[:1500] + "...[cut]"
         self.violations.append((key.replace(" ", "_"), d))
@@ -51,10 +60,10 @@ class Ctx:
         self.monitor_trips.append((key, detail if isinstance(detail, str) else repr(detail)))
 
     def digest(self):
-        return hashlib.sha1(repr((self.log, self.violations, sorted(self.faults.items()))).encode("utf-8", "backslashreplace")).hexdigest()
+        return hashlib.sha1(scrub(repr((self.log, self.violations, sorted(self.faults.items())))).encode("utf-8", "backslashreplace")).hexdigest()
 
     def interleaving(self):
-        return hashlib.sha1(repr(self.sched_log).encode("utf-8", "backslashreplace")).hexdigest()[:16]
+        return hashlib.sha1(scrub(repr(self.sched_log)).encode("utf-8", "backslashreplace")).hexdigest()[:16]
 
 
 class Prop:
